@@ -524,6 +524,7 @@ def rule_literal_fallback(ctx, rep):
                                                          'get_link_label', 'shift_whitespace')}
     n_paths = 0
     bad = []
+    gave_up = []
 
     def runner(oracle):
         it = Interp(model, loop_bound=1)
@@ -561,6 +562,13 @@ def rule_literal_fallback(ctx, rep):
         if kind == 'raise':
             continue
         if r is None:
+            # literal text: only after the shortcut lookup of the bracketed text was tried and failed, unless a
+            # link label follows (then the full / collapsed forms decide)
+            label_follows = any(isinstance(k, tuple) and len(k) == 3 and k[0] == 'follows' and k[2] == '[' and v is True
+                                for k, v in [(kk[1] if isinstance(kk, tuple) and len(kk) == 2 and kk[0] == 'cond' else kk, vv)
+                                             for kk, vv in trace])
+            if 'get' not in rec and not label_follows:
+                gave_up.append(trace)
             continue
         dt = r.attrs.get('dest_type') if isinstance(r, Obj) else None
         if dt in ('full',) and not rec.get('label'):
@@ -575,6 +583,14 @@ def rule_literal_fallback(ctx, rep):
         rep.find('R-LITERAL-FALLBACK', f.short, 'match-without-definition:%s' % bad[0][0],
                  'match_link_image can return a %s reference match although the label lookup failed: brackets that '
                  'reference no definition become a link' % bad[0][0], loc(model.unit_of(f), f.node))
+    ok2 = not gave_up
+    rep.obligation('R-LITERAL-FALLBACK', ok2, {'literal-text results that never tried the shortcut reference': len(gave_up)})
+    if not ok2:
+        rep.find('R-LITERAL-FALLBACK', f.short, 'gives-up-before-reference-lookup',
+                 'match_link_image can return no match without having looked the bracketed text up as a shortcut reference '
+                 '(%d path(s), e.g. decisions %s): a defined reference followed by text that merely looks like the start of an '
+                 'inline link stays literal' % (len(gave_up), [(str(k)[:40], v) for k, v in gave_up[0]][:5]),
+                 loc(model.unit_of(f), f.node), witness='[foo](not a link)\n\n[foo]: /url1')
     rep.floor('R-LITERAL-FALLBACK', n_paths, 8)
 
 
